@@ -59,6 +59,9 @@ class WApp:
     def _ev(self, kind, value):
         self.ev.append((self.world.step, kind, value))
         self.order.append(kind)
+        hook = getattr(self, "on_event", None)
+        if hook is not None:
+            hook(kind)          # an application that reacts at once, from inside the notification
         bug = getattr(self, "raise_on", None)
         if bug and self.api == "delegate" and kind == bug[0]:
             bug[1] -= 1
